@@ -21,7 +21,7 @@ import (
 // ---- free-running scenarios: no yield points, the Go scheduler decides ----
 
 func freeScenario(r *hx.Rand) *Scenario {
-	sc := &Scenario{Mode: "free", DLSup: r.Chance(2, 3)}
+	sc := &Scenario{Mode: "free", DLSup: r.Chance(2, 3), WS: r.Chance(1, 4)}
 	var as []Actor
 	for n := 1 + r.Intn(3); n > 0; n-- {
 		as = append(as, Actor{Kind: "close"})
@@ -66,7 +66,7 @@ func runFree(sc *Scenario, r *hx.Rand) *Outcome {
 	n := len(sc.Actors)
 	o := &Outcome{Res: make([]string, n), afterClose: make([]bool, n), cause: "unknown"}
 	xmpp.VerifSetHook(nil)
-	rg, err := newRig(sc.DLSup, sc.Recv)
+	rg, err := newRig(sc.DLSup, sc.Recv, sc.WS)
 	if err != nil {
 		o.Problems = append(o.Problems, Problem{"C10/setup", err.Error()})
 		return o
@@ -141,7 +141,7 @@ func runFree(sc *Scenario, r *hx.Rand) *Outcome {
 	}
 	for i, a := range sc.Actors {
 		if a.Kind == "peer" {
-			rg.peerQ <- peerBytes(a.Ev, i)
+			rg.peerQ <- peerBytes(a.Ev, i, sc.WS)
 			mu.Lock()
 			o.Res[i] = "ENil"
 			mu.Unlock()
@@ -195,7 +195,7 @@ func (x *runner) deadlineRaces(n int) {
 	for k := 0; k < n; k++ {
 		sc := &Scenario{Mode: "race", DLSup: k%2 == 0, Note: "SetCloseDeadline while Serve runs"}
 		xmpp.VerifSetHook(nil)
-		rg, err := newRig(sc.DLSup, false)
+		rg, err := newRig(sc.DLSup, false, false)
 		if err != nil {
 			continue
 		}
@@ -228,7 +228,6 @@ func (x *runner) deadlineRaces(n int) {
 
 // ---- WebSocket subprotocol sessions (oracle only; not modelled) ----
 
-const wsNS = "urn:ietf:params:xml:ns:xmpp-framing"
 
 func (x *runner) wsProbes() {
 	sc := &Scenario{Mode: "ws", Note: "websocket.NewSession over a pipe with a scripted server"}
